@@ -152,6 +152,29 @@ Theorem C15_remarshal_tree_partial : forall t,
 Proof. exact remarshal_names. Qed.
 Print Assumptions C15_remarshal_tree_partial.
 
+(** PARTIAL (same reservation), and with a visible hypothesis.  Written inside
+    a container element of the library (Prop, ResourceType, Include, ...: the
+    encoder has declared the container's namespace [ns] as the default, and
+    MarshalXML cannot know), a captured element that has a namespace of its
+    own is read back as the same element tree... *)
+Theorem C15_remarshal_embedded_partial : forall ns n a cs,
+  str_empty (fst n) = false ->
+  exists l, marshal (raw_of (strip (Elem n a cs))) = Ok l /\
+            exists u, parse_forest (reread_in ns l) = Some [u] /\ same_tree u (Elem n a cs) = true.
+Proof. exact remarshal_embedded. Qed.
+Print Assumptions C15_remarshal_embedded_partial.
+
+(** ...known finding C15/embedded-no-namespace: an element in no namespace is
+    read back in the container's namespace. *)
+Theorem C15_embedded_no_namespace_refuted :
+  exists n a cs l,
+    str_empty (fst n) = true /\
+    marshal (raw_of (strip (Elem n a cs))) = Ok l /\
+    parse_forest (reread_in dav_ns l) = Some [Elem (dav_ns, snd n) a cs] /\
+    same_tree (Elem (dav_ns, snd n) a cs) (Elem n a cs) = false.
+Proof. exact embedded_no_namespace_refuted. Qed.
+Print Assumptions C15_embedded_no_namespace_refuted.
+
 (** ** Decoding a typed value from a captured raw value *)
 
 (** The decoder Decode builds on the reader of a captured value yields the
@@ -243,12 +266,12 @@ Print Assumptions C15_same_tree_strip.
 
 (** ** Agreement of the implementation with the model entails the property *)
 
-(** For every well-formed element outside the known finding: observations that
-    agree with the model (capture, every reader step, decoder view, marshal
-    output) satisfy the specification (finite, balanced, well nested, same
-    tree on every path). *)
+(** For every well-formed element outside the two known findings: observations
+    that agree with the model (capture, every reader step, decoder view, marshal
+    output alone and inside a container) satisfy the specification (finite,
+    balanced, well nested, same tree on every path). *)
 Theorem C15_doc_agree_implies_spec_ok : forall ts o,
-  input_wf ts = true -> doc_kf ts = false ->
+  input_wf ts = true -> doc_kf ts = false -> doc_kf_in ts = false ->
   doc_agrees ts o = true -> doc_spec_ok ts o = true.
 Proof. exact doc_agree_implies_spec_ok. Qed.
 Print Assumptions C15_doc_agree_implies_spec_ok.
